@@ -6,7 +6,7 @@
 (* and direct transfers aimed at the escrow account.                         *)
 EXTENDS Genesis
 
-CONSTANTS MaxHeight, MaxTx, MaxFail, MaxStreams, Fees, DTs
+CONSTANTS MaxHeight, MaxTx, MaxFail, MaxStreams, Fees, DTs, FailingGov
 VARIABLES st, phase, hist, nTx, nFail
 vars == <<st, phase, hist, nTx, nFail>>
 
@@ -37,8 +37,8 @@ TxAlphabet ==
   \cup { Tx(<<[t |-> "SClaim", sender |-> "A1", receiver |-> "A2"], [t |-> "Send", from |-> "A2", to |-> "A3", amt |-> 1, denom |-> "nund"]>>) }
   \* a stream created and topped up inside a transaction that is rolled back (the pair stays free)
   \cup { Tx(<<SCreate("A2", "A1", 60, "nund", 1), [t |-> "STopUp", sender |-> "A1", receiver |-> "A2", dep |-> 60, denom |-> "nund"], SCreate("A2", "A1", 60, "nund", 1)>>) }
-  \cup { GovTxFor(st, "str", Fees[i]) : i \in DOMAIN Fees }
-  \cup { GovTxFailingFor(st, "str", Fees[1]) }
+  \cup { GovTxFor(st, "str", Fees[i]) : i \in (IF FailingGov THEN {} ELSE DOMAIN Fees) }
+  \cup (IF FailingGov THEN { GovTxFailingFor(st, "str", Fees[i]) : i \in DOMAIN Fees } ELSE {})
 
 \* the rolled-back creation scripts (three messages) do not use up the ration of failing transactions
 Scripted(ev) == Len(ev.msgs) >= 3
@@ -70,6 +70,7 @@ FeesQuick == << [feeNum |-> 1, feeDen |-> 2], [feeNum |-> 0, feeDen |-> 1] >>
 FeesFull == FeesQuick \o << [feeNum |-> 1, feeDen |-> 1], [feeNum |-> 1, feeDen |-> 100] >>
 DTsQuick == {0, 500, 30000, 59600, 200000}
 DTsFull == {0, 500, 1000, 30000, 59600, 60000, 200000}
+DTsGhost == {2000}
 
 Inv == C10State(st) /\ C11State(st) /\ Conserved(st) /\ NotStranded(st) /\ NotHalted(st) /\ C02StateModel(st) /\ StoredParamsValid(st) /\ C15State(st)
 StepProps == [][ hist' # hist =>
